@@ -281,7 +281,7 @@ def chain_variants(rec, batch):
 
 def run_shard(rec):
     quick = rec.tier == 'quick'
-    rec.deadline = time.time() + (60 if quick else 800)
+    rec.deadline = time.time() + (300 if quick else 800)
     batch = Batch()
     idx = 0
     if rec.shard == 1 or not quick:
